@@ -190,4 +190,32 @@ def disconnectBan (s : Store) (opt : Option Nat) (now : Nat) (ip : Bytes) : Stor
   | some 2 => s.add ip none
   | _ => s
 
+-- ---------------------------------------------------------------- ClientConn.Disconnect: who is told
+
+/-- A registered connection as the client manager lists it: its user name may still be empty
+    (a 1.5+ client that has logged in but not yet sent its name / agreed). -/
+structure Client where
+  id : Nat
+  name : Bytes
+  agreed : Bool
+deriving Repr, DecidableEq
+
+/-- `ClientConn.Disconnect` (called by the delayed goroutine of the disconnect handler and by the
+    deferred cleanup of every connection): the client leaves the registry and *every other*
+    registered client is sent a "user left" notice `(to, id that left)` — whatever the name or
+    agreement state of the one that leaves. -/
+def disconnect (live : List Client) (c : Client) : List Client × List (Nat × Nat) :=
+  (live.filter (fun o => o.id != c.id), (live.filter (fun o => o.id != c.id)).map (fun o => (o.id, c.id)))
+
+theorem disconnect_tells_all_others (live : List Client) (c : Client) (o : Client)
+    (ho : o ∈ live) (hne : o.id ≠ c.id) : (o.id, c.id) ∈ (disconnect live c).2 := by
+  simp only [disconnect, List.mem_map, List.mem_filter]
+  exact ⟨o, ⟨ho, by simpa using hne⟩, rfl⟩
+
+theorem disconnect_removes (live : List Client) (c : Client) :
+    ∀ o ∈ (disconnect live c).1, o.id ≠ c.id := by
+  intro o ho
+  simp only [disconnect, List.mem_filter] at ho
+  simpa using ho.2
+
 end Mobius.BanGate
